@@ -47,7 +47,7 @@ for P in $PROP "$@"; do
   VERIF_REPO="$S/mut" VERIF_OUT="$S/out" /verif/check "$P" "$TIER" > "$S/check_$P.log" 2>&1
   RC=$?
   T1=$(date +%s)
-  SIGS=$(grep -a '^  sig:' "$S/check_$P.log" | sed 's/^  sig: //' | head -4 | tr '\n' ';' | sed 's/"/\\"/g')
+  SIGS=$(grep -a '^  sig:' "$S/check_$P.log" | sed 's/^  sig: //' | head -4 | tr '\n' ';' | sed 's/\\/\\\\/g; s/"/\\"/g')
   RES="$RES{\"check\":\"$P\",\"exit\":$RC,\"seconds\":$((T1-T0)),\"sigs\":\"$SIGS\"},"
   [ $RC -ne 1 ] && tail -2 "$S/check_$P.log" | sed 's/^/    /' >&2
 done
